@@ -496,13 +496,30 @@ def _is_annotated_order(bs, t):
     return False
 
 
+def _resolve_ast(fl, node, nid, depth=0):
+    """Follow a Name through single, path-free assignments to the defining expression.
+    Returns (ast expression, cfg node id where it is evaluated)."""
+    while isinstance(node, ast.Name) and node.id in fl.locals and depth < 4:
+        ds = [d for d in fl.reaching(node.id, nid) if d.kind != "unbound"]
+        if len(ds) != 1 or ds[0].kind != "assign" or ds[0].path:
+            break
+        node, nid = ds[0].value, ds[0].node
+        depth += 1
+    return node, nid
+
+
 def _judge_order(bs, call, nid, o):
     """o: canonical term of the order= argument at cfg node nid."""
     fi, fl, cfg = bs.fi, bs.fl, bs.fi.cfg
     obs = []
     kw = [k for k in call.keywords if k.arg == "order"][0]
     cases = []   # (kind, term, def/ast, guard info)
-    if o[0] == "var":
+    v_ast, v_nid = _resolve_ast(fl, kw.value, nid)
+    if isinstance(v_ast, ast.IfExp):
+        t_ast, t_nid = _resolve_ast(fl, v_ast.test, v_nid)
+        cases.append(("ifexp-true", fl.canon(v_ast.body, v_nid), v_ast, ("ifexp", t_ast, True, t_nid)))
+        cases.append(("ifexp-false", fl.canon(v_ast.orelse, v_nid), v_ast, ("ifexp", t_ast, False, t_nid)))
+    elif o[0] == "var":
         for d in fl.reaching(o[1], nid):
             if d.kind == "unbound":
                 continue
@@ -511,9 +528,6 @@ def _judge_order(bs, call, nid, o):
                 continue
             vt = fl._apply_path(fl.canon(d.value, d.node), d.path)
             cases.append(("def", vt, d, d.node))
-    elif o[0] == "ifexp":
-        cases.append(("ifexp-true", o[2], kw.value, ("ifexp", kw.value.test, True)))
-        cases.append(("ifexp-false", o[3], kw.value, ("ifexp", kw.value.test, False)))
     else:
         cases.append(("direct", o, kw.value, None))
     base_found = False
@@ -529,7 +543,7 @@ def _judge_order(bs, call, nid, o):
                 gs = [(t, pol, gid) for t, pol, gid in guards_of(fi, g) if gid not in [gg[2] for gg in guards_of(fi, nid)]]
                 tests = [(t, pol, gid) for t, pol, gid in gs]
             elif kind.startswith("ifexp"):
-                tests = [(g[1], g[2], nid)]
+                tests = [(g[1], g[2], g[3])]
             else:
                 tests = []
             verdict = _aromatic_guard(bs, tests)
